@@ -66,11 +66,15 @@ def toArgument (p : String) : String := (p.drop 1).toString
 
 def RawLayer.isSource (r : RawLayer) : Bool := r.k == "source"
 
+/-- an argument annotated `Output` (`def z(y: Output)`) reads the layer's OWN output of that name; written `out:<name>` in a `RawField` -/
+def isOut (a : String) : Bool := a.startsWith "out:"
+def outName (a : String) : String := (a.drop 4).toString
+
 /-- `SourceFactory._validate_inputs`: every public argument of a Source's function is the key -/
 def RawLayer.fwdArg (r : RawLayer) (a : String) : String := if r.isSource && !isPrivate a then "id" else a
 
 def RawLayer.layout (r : RawLayer) : FLayout :=
-  let pub := fun (fs : List RawField) => fs.flatMap fun f => (f.args.filter (!isPrivate ·)).map r.fwdArg
+  let pub := fun (fs : List RawField) => fs.flatMap fun f => (f.args.filter fun a => !isPrivate a && !isOut a).map r.fwdArg
   { inputs := dedup ((if r.isSource then ["id"] else []) ++ pub r.params ++ pub r.fields)
     -- `self.parameters[name]` creates the node of a private name on first use: a private argument that nothing defines is a
     -- parameter node without an incoming edge (the storage is frozen only after all the fields were collected)
@@ -94,7 +98,9 @@ def optMapM' {α β : Type} (f : α → Option β) : List α → Option (List β
 
 /-- the edge of a forward function: public arguments are inputs, private ones parameters -/
 def RawLayer.fwdEdge (r : RawLayer) (l : FLayout) (f : RawField) (out : BNode) : Option BEdge :=
-  (optMapM' (fun a => if isPrivate a then nodeAt l.pBase l.params a else nodeAt 0 l.inputs (r.fwdArg a)) f.args).map fun ins =>
+  (optMapM' (fun a => if isPrivate a then nodeAt l.pBase l.params a
+                     else if isOut a then nodeAt l.oBase l.outputs (outName a)
+                     else nodeAt 0 l.inputs (r.fwdArg a)) f.args).map fun ins =>
     { edge := .function f.f [] [], ins := ins, out := out }
 
 /-- the edge of an inverse function: public arguments are backward inputs (`Inverse._wrap`) -/
